@@ -106,6 +106,11 @@ pub enum Place {
     Right,
     /// somewhere inside, at this offset from a 64-byte boundary
     Mid(u8),
+    /// at the address of an earlier buffer of at least this length: the same
+    /// memory holding different bytes at different times (a read buffer that
+    /// is refilled). `Op::Refill` writes this buffer's bytes there; until
+    /// then, and after a `Refill` of the other one, it must not be used.
+    Over(usize),
 }
 
 #[derive(Serialize, Deserialize, Clone, Debug)]
@@ -218,6 +223,10 @@ pub enum Op {
     FinderOwn { f: Slot },
     /// the caller frees the needle buffer (legal once nothing borrows it)
     KillNeedle { buf: BufId },
+    /// the caller overwrites the memory this buffer shares with another one
+    /// (`Place::Over`) with this buffer's bytes; legal while nothing borrows
+    /// either of them
+    Refill { buf: BufId },
 
     // ----- substring iterators ---------------------------------------------
     /// `f.find_iter(hay)` / `f.rfind_iter(hay)` (finder in slot `f`), or the
